@@ -42,6 +42,11 @@ type c06Cfg struct {
 	// request (Check returns false): the connection is one "no request hook intercepts", everything
 	// must be exactly as without a hook
 	DecliningHook bool
+	// AddrLens / DialErrLens: lengths of the request address / of the dial error message the
+	// execution chooses from (added after the independently seeded change C06-6: a frame buffer one
+	// byte too long for a 63-byte address put a stray 0x00 in front of the client's first byte)
+	AddrLens    []int
+	DialErrLens []int
 }
 
 // c06DecliningHook declines every request; its TCP/UDP methods must never be called.
@@ -60,6 +65,19 @@ func (h c06DecliningHook) UDP(data []byte, reqAddr *string) error {
 const c06Addr = "target.example:80"
 
 func c06Run(e *vsched.Exec, c c06Cfg) {
+	addr := c06Addr
+	if c.AddrLens != nil {
+		// "for every proxied TCP connection": the request address is an input. Every length around
+		// the varint boundaries of the request frame (cost-free choice).
+		n := c.AddrLens[e.Choose(len(c.AddrLens), vsched.KFree, "address-length")]
+		addr = strings.Repeat("h", n-3) + ":80"
+		e.Logf("address length %d", n)
+	}
+	if c.DialErrLens != nil {
+		n := c.DialErrLens[e.Choose(len(c.DialErrLens), vsched.KFree, "dial-error-length")]
+		c.DialErr = strings.Repeat("e", n)
+		e.Logf("dial error message length %d", n)
+	}
 	opts := rigOpts{Traffic: c.Logger}
 	if c.DecliningHook {
 		opts.Mutate = func(cfg *Config) { cfg.RequestHook = c06DecliningHook{e} }
@@ -72,7 +90,7 @@ func c06Run(e *vsched.Exec, c c06Cfg) {
 		r.TrafficVeto = func(n int, id string, tx, rx uint64) bool { return n == c.VetoAt }
 	}
 	if c.DialErr != "" {
-		r.DialErr[c06Addr] = errors.New(c.DialErr)
+		r.DialErr[addr] = errors.New(c.DialErr)
 	}
 	r.TargetBuf = 8
 	nt := vquic.GetNet(e)
@@ -97,8 +115,8 @@ func c06Run(e *vsched.Exec, c c06Cfg) {
 		wg.Add(2)
 		vsched.GoNamed("target-writer", func() {
 			defer wg.Done()
-			e.Point("env", func() bool { return r.Targets[c06Addr] != nil || nt.Conns[0].IsClosed() }, "target waits for dial")
-			t := r.Targets[c06Addr]
+			e.Point("env", func() bool { return r.Targets[addr] != nil || nt.Conns[0].IsClosed() }, "target waits for dial")
+			t := r.Targets[addr]
 			if t == nil {
 				return
 			}
@@ -119,8 +137,8 @@ func c06Run(e *vsched.Exec, c c06Cfg) {
 		})
 		vsched.GoNamed("target-reader", func() {
 			defer wg.Done()
-			e.Point("env", func() bool { return r.Targets[c06Addr] != nil || nt.Conns[0].IsClosed() }, "target waits for dial")
-			t := r.Targets[c06Addr]
+			e.Point("env", func() bool { return r.Targets[addr] != nil || nt.Conns[0].IsClosed() }, "target waits for dial")
+			t := r.Targets[addr]
 			if t == nil {
 				tgtReadDone = true
 				return
@@ -137,7 +155,7 @@ func c06Run(e *vsched.Exec, c c06Cfg) {
 			}
 		})
 	}
-	conn, err := cl.TCP(c06Addr)
+	conn, err := cl.TCP(addr)
 	tcpErr = err
 	if err == nil {
 		for _, s := range nt.Conns[0].Streams() {
@@ -211,7 +229,7 @@ func c06Run(e *vsched.Exec, c c06Cfg) {
 		if !errors.As(got, &de) || de.Message != c.DialErr {
 			e.Fail("(iii) dial failure reached the client as %v (TCP err %v, first Read err %v), expected DialError{%q}", got, tcpErr, appReadErr, c.DialErr)
 		}
-		if r.Targets[c06Addr] != nil || tgtGot.Len() > 0 {
+		if r.Targets[addr] != nil || tgtGot.Len() > 0 {
 			e.Fail("(iii) bytes relayed after a failed dial")
 		}
 	} else if tcpErr != nil {
@@ -257,7 +275,7 @@ func c06Run(e *vsched.Exec, c c06Cfg) {
 		}
 		// bytes actually forwarded: accepted by the target socket / put on the client's stream
 		var fwdTx, fwdRx uint64
-		if re := r.RelayEnds[c06Addr]; re != nil {
+		if re := r.RelayEnds[addr]; re != nil {
 			fwdTx = uint64(len(re.Written))
 		}
 		for _, s := range sconn.Streams() {
@@ -381,6 +399,24 @@ func c06Scenarios(thorough bool) []*explore.Scenario {
 			c06Cfg{Name: "dialerr" + sfx, AppSend: []string{"a"}, AppClose: "never", TgtClose: "never", FastOpen: fo, Logger: true, DialErr: "connection refused by policy", DecliningHook: true},
 		)
 	}
+	// every address length and dial-error message length around the frame's varint boundaries
+	var lens, elens []int
+	for n := 4; n <= 130; n++ {
+		lens = append(lens, n)
+	}
+	lens = append(lens, 255, 256, 257, 1023, 1024, 2047, 2048)
+	for n := 1; n <= 130; n++ {
+		elens = append(elens, n)
+	}
+	elens = append(elens, 255, 256, 1024, 2047, 2048)
+	for _, fo := range []bool{false, true} {
+		sfx := fmt.Sprintf("/fastopen=%v", fo)
+		cfgs = append(cfgs,
+			c06Cfg{Name: "address-lengths-both" + sfx, AppSend: []string{"abc"}, TgtSend: []string{"x", "yz0"}, TgtClose: "after-reading-all", AppClose: "never", FastOpen: fo, Logger: true, Whole: "both", AddrLens: lens},
+			c06Cfg{Name: "address-lengths-c2t" + sfx, AppSend: []string{"a", "bcd"}, AppClose: "after-writes", TgtClose: "never", FastOpen: fo, Logger: true, Whole: "c2t", AddrLens: lens},
+			c06Cfg{Name: "dial-error-lengths" + sfx, AppSend: []string{"a"}, AppClose: "never", TgtClose: "never", FastOpen: fo, Logger: true, DialErr: "x", DialErrLens: elens},
+		)
+	}
 	// small windows and short reads (cursor/offset logic of the copy loops)
 	cfgs = append(cfgs,
 		c06Cfg{Name: "c2t-window2-chunks", AppSend: []string{"abcde", "fg"}, AppClose: "after-writes", TgtClose: "never", Logger: true, Whole: "c2t", Window: 2, Chunks: true},
@@ -406,6 +442,9 @@ func c06Scenarios(thorough bool) []*explore.Scenario {
 		}
 		if strings.Contains(c.Name, "window") {
 			q, t = explore.Bounds{P: 1, E: 1}, explore.Bounds{P: 2, E: 1, MaxExec: 2000000}
+		}
+		if c.AddrLens != nil || c.DialErrLens != nil {
+			q, t = explore.Bounds{P: 0}, explore.Bounds{P: 1}
 		}
 		if strings.Contains(c.Name, "40k") {
 			q, t = explore.Bounds{P: 1}, explore.Bounds{P: 1, E: 1}
